@@ -84,10 +84,13 @@ CFG = {
     # quick: every body up to 6 tokens, and every body up to 8 tokens that begins with an if statement (no goto / label tokens):
     # `if c { s } else { loop }` has 8 tokens
     # dimension audit (docs/notes-flat.md): fns = modules of two (thorough: three) function bodies (the linter lives as long
-    # as the compiler, the syntax analyzer is made per declaration); kinds = call and declaration statements in every place
+    # as the compiler, the syntax analyzer is made per declaration); kinds = call and declaration statements in every place;
+    # faulty = statements that also carry an error of a LATER analysis (E511, E512/E513, E530) in every place: the misplaced
+    # ones still get E840 (seventh round of seeded changes)
     "mc_cfg": {"quick": ["MC_Placement_quick.cfg", "MC_Placement_ifelse_quick.cfg", "MC_Placement_fns_quick.cfg",
-                         "MC_Placement_kinds_quick.cfg"],
-               "thorough": ["MC_Placement_thorough.cfg", "MC_Placement_fns_thorough.cfg", "MC_Placement_kinds_thorough.cfg"]},
+                         "MC_Placement_kinds_quick.cfg", "MC_Placement_faulty_quick.cfg"],
+               "thorough": ["MC_Placement_thorough.cfg", "MC_Placement_fns_thorough.cfg", "MC_Placement_kinds_thorough.cfg",
+                            "MC_Placement_faulty_thorough.cfg"]},
     "workers": 8,
     "prepare": prepare,
     "compare": compare,
@@ -106,7 +109,8 @@ CFG = {
                  "compiled; E800/E801/E840 (item, code) sets, the verdict and the L1800 lints are compared with the rule. "
                  "Random statement trees (<= 30 statements, depth 5) are recorded with `visit` events and validated by TLC. "
                  "Dimension audit: modules of two / three function bodies (token F; the linter's flags are threaded through the module), "
-                 "call and declaration statements in every place (tokens M, V), no label after the last statement unless a goto needs it "
+                 "call and declaration statements in every place (tokens M, V), statements that also carry an error of a later analysis -- "
+                 "call with an excess argument, call without address-of, assignment to a constant -- in every place (tokens MX, MY, SX), no label after the last statement unless a goto needs it "
                  "(the LAST statement of a function body is every kind of statement), layouts (result type with `return: x` as last "
                  "statement, parameter, comments, no final newline); every third random run has 1-3 functions, calls, declarations, nesting up to 8. "
                  "Non-trivial = distinct sequences containing an if or a block together with a loop or an if.",
